@@ -34,6 +34,8 @@ THEOREMS = [
     "Escape.html2stan_encode", "Escape.sig_default_safe", "Escape.sig_default_text", "Escape.sig_default_nbsp_counterexample",
     "Escape.quote_clean", "Escape.url_href_verbatim", "Escape.node2stan_starttag_safe", "Escape.rstPrefix_prefixed",
     "Escape.mungeHref_fragment", "Escape.validIdentifierCss_clean",
+    "Escape.math_filter_safe", "Escape.isMathHtml_elements", "Escape.math_filter_rejects",
+    "Escape.introspected_sig_safe", "Escape.introspected_sigOld_counterexample",
     "Escape.sanitise_chars", "Escape.literal_holds_ok", "Escape.sanitise_guard", "Escape.sanitise_guard_partial",
     "Escape.sanitise_guard_counterexample",
     "Escape.identifier_clean", "Escape.identifier_guard", "Escape.identifier_guard_counterexample",
@@ -808,12 +810,17 @@ def run_builder_streams(ctx: Ctx) -> None:
         return flatten(format_signature(system.allobjects["cext.func"]))
     cases = [("<b onzz1=\"1\">x</b>", None), ("<script>xmk1</script>", None), ("<xmk2/>", None), (3, "hint<xmk3>x</xmk3>"), ("plain", None),
              ("a&b", None), ("a<b", None)] + [(rand_string(rng, 6), None) for _ in range(n // 5)]
+    ireqs, iimpls, ipay = [], [], []
     for default, ann in cases:
         try:
             o = introspected_signature(default, ann if ann is not None else inspect.Parameter.empty)
         except Exception as e:
             ctx.count("builder:introspected-signature:raises:" + exc_name(e))
             continue
+        if ann is None:   # the model takes repr(default) (CPython's repr is a parameter)
+            ireqs.append("escape sigintrospected " + enc(repr(default)))
+            iimpls.append("ok " + enc(o))
+            ipay.append({"op": "sigintrospected", "default": default})
         ctx.case("introspected " + enc(str(default)) + " " + enc(str(ann)), nontrivial_string(str(default) + str(ann)))
         try:
             el = ET.fromstring("<r>" + drop_illegal(o) + "</r>")
@@ -824,6 +831,43 @@ def run_builder_streams(ctx: Ctx) -> None:
         if not ok:
             ctx.fail("introspected-signature-parsed-as-markup", {"default": default, "annotation": ann, "out": o},
                      f"introspected signature with default {default!r} / annotation {ann!r} is written as {o!r}")
+    ctx.compare("builder:introspected-signature", ireqs, iimpls, ipay)
+    # (1c) the math filter: HTMLTranslator._is_math_html on fragments flattened from generated trees
+    MT = ["span", "div", "i", "b", "sub", "sup", "hr", "a", "br", "tt", "u", "big", "small", "table", "tbody", "tr", "td",
+          "script", "img", "xmk1", "p", "em", "SPAN", "style"]
+    MA = ["class", "style", "href", "name", "onclick", "id", "title", "src", "HREF"]
+    HREFS = ["javascript:x", " JavaScript:x", "\tdata:text/html,x", "vbscript:x", "http://x/", "#a", "java script:x", "xjavascript:",
+             "JAVASCRIPT:", "\u212aavascript:", "", "data", "\xa0javascript:x", "vbScript:\u0130"]
+
+    def math_tree(depth: int):
+        if depth >= 3 or rng.random() < 0.3:
+            return ("T", drop_illegal(rand_string(rng, 5))) if rng.random() < 0.8 else ("R", 64)
+        name = "" if rng.random() < 0.05 else rng.choice(MT[:17] if rng.random() < 0.85 else MT)
+        attrs = []
+        for k in rng.sample(MA[:4] if rng.random() < 0.85 else MA, rng.choice([0, 0, 1, 1, 2])):
+            attrs.append((k, rng.choice(HREFS) if k.lower() == "href" else drop_illegal(rand_string(rng, 4))))
+        return ("E", name, attrs, [math_tree(depth + 1) for _ in range(rng.choice([0, 1, 1, 2, 3]))])
+    reqs, impls, pay = [], [], []
+    fixed_trees = [("E", "", [], [("E", "script", [], [("T", "x")])]), ("E", "", [], [("E", "b", [("onclick", "x")], [])]),
+                   ("E", "", [], [("E", "a", [("href", " JavaScript:x")], [])]), ("E", "", [], [("E", "span", [("class", "text")], [("E", "i", [], [("T", "a")])])]),
+                   ("E", "", [], [("E", "span", [("style", "color: x")], [("E", "xmk1", [], [])])])]
+    for i in range(2 * n):
+        t = fixed_trees[i] if i < len(fixed_trees) else ("E", "", [], [math_tree(0) for _ in range(rng.choice([1, 1, 2]))])
+        html = flatten(to_stan(t))
+        out = "true" if node2stan.HTMLTranslator._is_math_html(html) else "false"
+        reqs.append("escape ismath " + tree_tokens(t))
+        impls.append(out)
+        pay.append({"op": "ismath", "tree": t, "html": html})
+        ctx.case(reqs[-1], True)
+        ctx.count("builder:_is_math_html:" + out)
+        # direct oracle: what the filter keeps contains no element/attribute outside math2html's vocabulary
+        if out == "true":
+            el = ET.fromstring("<r>" + html + "</r>")
+            bad = [e.tag for e in el.iter() if e is not el and (e.tag not in MT[:17] or set(e.attrib) - set(MA[:4])
+                   or e.attrib.get("href", "").strip().lower().startswith(("javascript:", "data:", "vbscript:")))]
+            if bad:
+                ctx.fail("math-filter-keeps-foreign-markup", pay[-1], f"_is_math_html accepts {html!r}")
+    ctx.compare("builder:_is_math_html", reqs, impls, pay)
     # (2) urllib.parse.quote and Documentable.url / taglink
     reqs, impls, pay = [], [], []
     for _ in range(5 * n):
@@ -924,12 +968,16 @@ def probe_uri_autolink(ctx: Ctx) -> None:
 
 
 def run(ctx: Ctx) -> None:
-    probe_uri_autolink(ctx)
-    run_function_streams(ctx)
-    run_tree_stream(ctx)
-    run_deprecate_streams(ctx)
-    run_builder_streams(ctx)
-    run_taint_stream(ctx)
+    import traceback
+    for stream in (probe_uri_autolink, run_function_streams, run_tree_stream, run_deprecate_streams, run_builder_streams,
+                   run_taint_stream):
+        try:
+            stream(ctx)
+        except Exception as e:
+            # a function of /repo that moved or vanished (e.g. an older tree) breaks that stream's tie, not the whole
+            # check: the remaining streams — above all the taint oracle — still run
+            ctx.disagree("harness:" + stream.__name__, "stream aborted", "-",
+                         f"{type(e).__name__}: {e} | " + traceback.format_exc().strip().splitlines()[-3].strip())
 
 
 def replay(ctx: Ctx, obj) -> int:
